@@ -73,3 +73,125 @@ pub fn trim_suffix(path: &PathBuf, suffix: &PathBuf) -> (r: PathBuf)
         (path.utf8_ok() && suffix.utf8_ok() && is_suffix(suffix.pstr(), path.pstr())) ==> r.pstr() == path.pstr().take(path.pstr().len() - suffix.pstr().len()),   //@ clause trim_suffix.removes_the_suffix [C15]
         !(path.utf8_ok() && suffix.utf8_ok() && is_suffix(suffix.pstr(), path.pstr())) ==> r.pstr() == path.pstr() && r.comps() == path.comps(),                     //@ clause trim_suffix.otherwise_unchanged [C15]
 //@ body
+
+// ---- mash(dir, base): dir followed by base with every leading separator removed
+// R4: `path.components().collect::<PathBuf>()` re-pushes each component onto an empty path (canonical string form)
+#[verifier::external_body]
+pub fn collect_components(it: Components) -> (r: PathBuf) ensures r.comps() == collect_spec(Seq::empty(), it.rest()), r.canonical() { unimplemented!() }
+pub open spec fn strip_root(p: Comps) -> Comps { if is_abs(p) { p.skip(1) } else { p } }
+pub open spec fn strip_lead(p: Comps) -> Comps { if p.len() > 0 && (p[0] == Component::RootDir || p[0] == Component::CurDir) { p.skip(1) } else { p } }
+pub open spec fn spec_mash(d: Comps, p: Comps) -> Comps { collect_spec(Seq::empty(), collect_spec(d, strip_root(p))) }
+
+pub proof fn lemma_collect_snoc(acc: Comps, s: Comps, c: Component)
+    ensures collect_spec(acc, s.push(c)) == push_spec(collect_spec(acc, s), c)
+    decreases s.len()
+{
+    if s.len() == 0 {
+        assert(s.push(c).skip(1) =~= Seq::<Component>::empty());
+        assert(collect_spec(push_spec(acc, c), Seq::<Component>::empty()) == push_spec(acc, c));
+    } else {
+        assert(s.push(c).skip(1) =~= s.skip(1).push(c));
+        lemma_collect_snoc(push_spec(acc, s[0]), s.skip(1), c);
+    }
+}
+//@ obligation lemma_collect_snoc props=C15
+// pushing components that are neither RootDir nor CurDir appends them
+pub proof fn lemma_collect_plain(acc: Comps, s: Comps)
+    requires forall|i: int| 0 <= i < s.len() ==> s[i] != Component::RootDir && (s[i] != Component::CurDir || (i == 0 && acc.len() == 0))
+    ensures collect_spec(acc, s) == acc + s
+    decreases s.len()
+{
+    if s.len() == 0 { assert(acc + s =~= acc); } else {
+        let a2 = push_spec(acc, s[0]);
+        assert(a2 == acc.push(s[0]));
+        assert forall|i: int| 0 <= i < s.skip(1).len() implies s.skip(1)[i] != Component::RootDir && (s.skip(1)[i] != Component::CurDir || (i == 0 && a2.len() == 0)) by { assert(s.skip(1)[i] == s[i + 1]); }
+        lemma_collect_plain(a2, s.skip(1));
+        assert(a2 + s.skip(1) =~= acc + s);
+    }
+}
+//@ obligation lemma_collect_plain props=C15
+// re-collecting a component sequence std produced gives the same sequence
+pub proof fn lemma_collect_std(s: Comps)
+    requires std_comps(s)
+    ensures collect_spec(Seq::empty(), s) == s
+{
+    if s.len() > 0 {
+        let a2 = push_spec(Seq::empty(), s[0]);
+        assert(a2 =~= seq![s[0]]);
+        assert forall|i: int| 0 <= i < s.skip(1).len() implies s.skip(1)[i] != Component::RootDir && (s.skip(1)[i] != Component::CurDir || (i == 0 && a2.len() == 0)) by { assert(s.skip(1)[i] == s[i + 1]); }
+        lemma_collect_plain(a2, s.skip(1));
+        assert(a2 + s.skip(1) =~= s);
+    }
+}
+//@ obligation lemma_collect_std props=C15
+// the containment law: for a non-empty dir the result is dir followed by base without its leading separator / dot
+pub proof fn lemma_mash_contains_dir(d: Comps, p: Comps)
+    requires std_comps(d), std_comps(p), d.len() > 0
+    ensures spec_mash(d, p) == d + strip_lead(p),                   //@ clause mash.components_are_dir_then_base [C15]
+            spec_mash(d, p).take(d.len() as int) == d               //@ clause mash.result_stays_under_dir [C15]
+{
+    let q = strip_root(p);
+    assert forall|i: int| 0 <= i < q.len() implies q[i] != Component::RootDir by { if is_abs(p) { assert(q[i] == p[i + 1]); } }
+    if q.len() > 0 && q[0] == Component::CurDir {
+        // leading `.` of a relative base is normalised away when pushed onto a non-empty path
+        let a2 = push_spec(d, q[0]);
+        assert(a2 == d);
+        assert forall|i: int| 0 <= i < q.skip(1).len() implies q.skip(1)[i] != Component::RootDir && (q.skip(1)[i] != Component::CurDir || (i == 0 && a2.len() == 0)) by { assert(q.skip(1)[i] == q[i + 1]); assert(q[i + 1] == p[i + 1]); }
+        lemma_collect_plain(d, q.skip(1));
+        assert(strip_lead(p) =~= q.skip(1));
+    } else {
+        assert forall|i: int| 0 <= i < q.len() implies q[i] != Component::RootDir && (q[i] != Component::CurDir || (i == 0 && d.len() == 0)) by {
+            if is_abs(p) { assert(q[i] == p[i + 1]); } else { assert(q[i] == p[i]); }
+        }
+        lemma_collect_plain(d, q);
+        assert(strip_lead(p) =~= q);
+    }
+    let m = d + strip_lead(p);
+    assert(std_comps(m)) by {
+        assert forall|i: int| 0 < i < m.len() implies m[i] != Component::RootDir && m[i] != Component::CurDir by {
+            if i >= d.len() { let j = i - d.len(); if p.len() > 0 && (p[0] == Component::RootDir || p[0] == Component::CurDir) { assert(strip_lead(p)[j] == p[j + 1]); } else { assert(strip_lead(p)[j] == p[j]); } }
+        }
+    }
+    lemma_collect_std(m);
+    assert(m.take(d.len() as int) =~= d);
+}
+//@ obligation lemma_mash_contains_dir props=C15
+
+//@ item mash file=src/sys/fs/path.rs fn=mash props=C15,C05,C17,C18,C12
+//@ sig pub fn mash<T: AsRef<Path>, U: AsRef<Path>>(dir: T, base: U) -> PathBuf
+//@ rw R3 1 for
+//@ rw R4 1 ⟦path.components().collect::<PathBuf>()⟧ => ⟦collect_components(path.components())⟧
+//@ ins after ⟦let mut path = dir.as_ref().to_path_buf();⟧
+    let ghost d = dir.comps();
+    let ghost p = base.comps();
+    let ghost mut k: int = 0;
+//@ endins
+//@ loop 1
+        invariant
+            d == dir.comps(), p == base.comps(), std_comps(p), 0 <= k <= p.len(),
+            __it1.rest() == p.skip(k),
+            path.comps() == collect_spec(d, strip_root(p.take(k))),
+        ensures k == p.len(),
+        decreases p.len() - k
+//@ endloop
+//@ ins after ⟦None => break };⟧
+        proof {
+            k = k + 1;
+            assert(p.take(k) =~= p.take(k - 1).push(component));
+            if component != Component::RootDir {
+                assert(strip_root(p.take(k)) =~= strip_root(p.take(k - 1)).push(component));
+                lemma_collect_snoc(d, strip_root(p.take(k - 1)), component);
+            } else {
+                assert(k == 1);
+                assert(strip_root(p.take(1)) =~= Seq::<Component>::empty());
+                assert(strip_root(p.take(0)) =~= Seq::<Component>::empty());
+            }
+        }
+//@ endins
+//@ ins before ⟦collect_components(path.components())⟧
+    proof { assert(p.take(p.len() as int) =~= p); }
+//@ endins
+pub fn mash(dir: &PathBuf, base: &PathBuf) -> (r: PathBuf)
+    ensures r.comps() == spec_mash(dir.comps(), base.comps()),     //@ clause mash.post [C15,C05]
+            r.canonical(),
+//@ body
